@@ -140,6 +140,9 @@ impl Property for C07 {
             "only_n": J::Null,
             "single": rng.chance(1, 3),
             "noprint": rng.chance(1, 8),
+            "api_twice": rng.chance(1, 3),
+            // "no limit" written as a very large LIMIT
+            "huge_n": rng.chance(1, 4),
         })
     }
 
@@ -148,7 +151,7 @@ impl Property for C07 {
         let mut out = Vec::new();
         if case.get("only_n").map(|x| x.is_null()).unwrap_or(true) {
             // pin the failing n first: every later candidate then costs one world instead of a sweep
-            for n in 0..8 {
+            for n in (0..8u64).chain([1_000_000_000_000u64, 9_223_372_036_854_775_807u64]) {
                 out.push(with_field(case, "only_n", json!(n)));
             }
         }
@@ -160,6 +163,8 @@ impl Property for C07 {
         set_field(case, "read_mode", json!("line"), &mut out);
         bool_field(case, "follow", false, &mut out);
         bool_field(case, "noprint", false, &mut out);
+        bool_field(case, "api_twice", false, &mut out);
+        bool_field(case, "huge_n", false, &mut out);
         if case.get("only_n").map(|x| x.is_null()).unwrap_or(true) {
             for n in 0..6 {
                 out.push(with_field(case, "only_n", json!(n)));
@@ -232,7 +237,7 @@ impl Property for C07 {
         }
         let rows = ref_rows.len();
         let only_n = case.get("only_n").and_then(|x| x.as_u64()).map(|x| x as usize);
-        let ns: Vec<usize> = match only_n {
+        let mut ns: Vec<usize> = match only_n {
             Some(n) => vec![n],
             None => {
                 if rows + 2 <= 14 {
@@ -247,6 +252,10 @@ impl Property for C07 {
             }
         };
 
+        if only_n.is_none() && jbool(case, "huge_n") {
+            ns.push(1_000_000_000_000);
+            ns.push(9_223_372_036_854_775_807);
+        }
         for n in ns {
             let lstmt = format!("{} LIMIT {}", stmt, n);
             let expected: Vec<String> = ref_rows.iter().take(n).map(|(r, _)| r.clone()).collect();
@@ -313,6 +322,29 @@ impl Property for C07 {
             }
             if (rows >= 2 && n < rows) || n == 0 {
                 out.nontrivial.push(fnv_mix(case_hash, n as u64 * 2));
+            }
+            // library-style batch use: update per line, then the result table requested twice; both must be the
+            // first n groups (a result call must not consume the limit)
+            if aggregate && jbool(case, "api_twice") {
+                let mut e = WorldSpec::new(&defs, &lstmt, Mode::EngineBatch);
+                e.engine_lines = all_lines.iter().map(|l| String::from_utf8(l.clone()).unwrap()).collect();
+                if let Some(j) = &joined {
+                    e.extra_files.push((sqlgen::JOINED_PATH.to_owned(), j.clone()));
+                }
+                e.format = format.clone();
+                let er = run(&mut out, &format!("engine API, result requested twice, LIMIT {}", n), &e, false);
+                let efeatures = json!({"kind": kind, "n0": n == 0, "multi_file": false, "mode": "engine_api"});
+                if er.terminated() && er.status == Status::Ok && er.engine.len() == 2 {
+                    for (i, eo) in er.engine.iter().enumerate() {
+                        let got: Vec<String> = eo.printed.iter().filter(|p| !p.is_empty()).cloned().collect();
+                        // CSV prints its header once per printer: ignore it in the second table
+                        if got != expected {
+                            failed(&mut out, "c07.result_not_repeatable", format!("aggregate result request #{} through the engine API returned {} but the first {} groups are {}", i + 1, show(&got), n, show(&expected)), &e, &efeatures);
+                            return out;
+                        }
+                    }
+                    out.probe("engine_api_result_twice", 1);
+                }
             }
             // the same run with DisplayOptions.print_result = false (benchmark configuration): nothing is
             // printed, but input consumption must obey the limit all the same
